@@ -299,6 +299,38 @@ impl Harness for H {
     }
 }
 
+
+/// Domains of processes that no longer exist (a replayed violation is abandoned by the engine with
+/// `mem::forget`, a crashed worker cannot clean up): removed whenever a parent / replay process starts.
+fn remove_stale_domains(dir_prefix: &str, shm_tag: &str) {
+    if std::env::args().any(|a| a == "--job" || a == "--list") {
+        return;
+    }
+    let alive = |pid: &str| !pid.is_empty() && pid.chars().all(|c| c.is_ascii_digit()) && std::path::Path::new(&format!("/proc/{pid}")).exists();
+    if let Ok(rd) = std::fs::read_dir("/verif/.run") {
+        for e in rd.flatten() {
+            let name = e.file_name().to_string_lossy().to_string();
+            if let Some(rest) = name.strip_prefix(dir_prefix) {
+                let pid = rest.split('-').next().unwrap_or("");
+                if pid.chars().all(|c| c.is_ascii_digit()) && !pid.is_empty() && !alive(pid) {
+                    let _ = std::fs::remove_dir_all(e.path());
+                }
+            }
+        }
+    }
+    if let Ok(rd) = std::fs::read_dir("/dev/shm") {
+        for e in rd.flatten() {
+            let name = e.file_name().to_string_lossy().to_string();
+            if let Some(rest) = name.strip_prefix(shm_tag) {
+                let pid: String = rest.chars().take_while(|c| c.is_ascii_digit()).collect();
+                if rest[pid.len()..].starts_with('x') && !pid.is_empty() && !alive(&pid) {
+                    let _ = std::fs::remove_file(e.path());
+                }
+            }
+        }
+    }
+}
+
 fn main() {
     iceoryx2::prelude::set_log_level(iceoryx2::prelude::LogLevel::Fatal);
     // the process-local storages of the local variants are heap allocations of several 100 kB that
@@ -307,6 +339,7 @@ fn main() {
         libc::mallopt(libc::M_MMAP_THRESHOLD, 1 << 30);
         libc::mallopt(libc::M_TRIM_THRESHOLD, 1 << 30);
     }
+    remove_stale_domains("h_lifecycle-", "hlc");
     start_watchdog();
     seqx::main(H);
 }
